@@ -369,11 +369,23 @@ def ready_none_blocks(ctx, body):
     return out
 
 
-def all_groups_empty_test(ctx, b, x):
+def all_groups_empty_test(ctx, b, x, _depth=0):
     """`x` (a boolean expression of a group-loop function b) says that no group holds anything:
     groups.iter().all(|g| g[.field].is_empty()) over the plain iterator of the whole groups vector, or `remaining counter == 0`
     for the counter that poll_next decrements once per yield.  -> "all" | "rem" | None"""
     x = strip_refs(x)
+    if x[0] == "call" and (x[1] or "") in ctx.facts.bodies and _depth < 2 and len(x[2]) == 1 and re.search(r"::is_empty$", x[1]):
+        # the collection's own emptiness observer (`this.is_empty()`): what it returns, read in its own body over `self`
+        recv = strip_refs(x[2][0])
+        while recv[0] == "proj" and recv[2] == ("*",):
+            recv = strip_refs(recv[1])
+        cb = ctx.facts.bodies[x[1]]
+        own = re.match(r"^<?([\w:]+)", b.path)
+        if cb.arg_count == 1 and own and cb.path.startswith(own.group(1).rstrip(":")):
+            r_ = all_groups_empty_test(ctx, cb, ctx.flow(cb).local_expr(0), _depth + 1)
+            if r_ is not None:
+                return r_
+        return None
     if x[0] == "call" and re.search(r"core::iter::Iterator>?::all$", x[1] or "") and len(x[2]) == 2:
         it, cl = strip_refs(x[2][0]), x[2][1]
         plain = it[0] == "call" and re.search(r"core::slice::<impl \[T\]>::iter$|IntoIterator>::into_iter$", it[1] or "") is not None
@@ -648,6 +660,10 @@ def r2_5(ctx, R):
         lds = live_drops(ctx, b, is_output_like)
         # the DRAIN output parameter O
         lds += live_drops(ctx, b, lambda t: t["k"] == "param" and t["name"] == "O")
+        # the release of an entry of a join combinator's MaybeUninit output buffer (`assume_init_drop`, reached here when the
+        # combinator drives the drain itself and its release helper is read through) is not a drop by a collection: whether
+        # that entry may be released is C06 R6.6 / C07's question
+        lds = [x for x in lds if x[2] != "assume_init_drop"]
         ctx.ob("R2.5", b, "no-live-output-drop", not lds, d_loc(b),
                "; ".join("%s %s at %s" % (how, place_str(p) if p else "?", b.loc(bb)) for bb, p, how in lds[:3]))
     ctx.floor("R2.5", "poll-functions", len(fns), 8)
